@@ -287,6 +287,31 @@ pub fn run(tier: Tier) -> ! {
             }
         });
     }
+    // every Unicode scalar value (NUL excluded: not a legal sentence character) in four contexts, so that
+    // every (grapheme-break class x character type) combination and every line-break-like character occurs:
+    // [a c], [c a], [c c], [half-width katakana, c, a]; grapheme and line-break filters on all four, the six
+    // character-type filters on [c c]; all-W labels (quick: [a c] and [c c] only for the two scanning filters)
+    {
+        let all: Vec<char> = (1u32..=0x10FFFF).filter_map(char::from_u32).collect();
+        chk.set("all_scalar_values_scanned", json!(all.len()));
+        all.par_iter().for_each(|&c| {
+            let ctxs: Vec<Vec<char>> = tier.pick(vec![vec!['a', c], vec![c, c]], vec![vec!['a', c], vec![c, 'a'], vec![c, c], vec!['ｶ', c, 'a']]);
+            for (k, text) in ctxs.iter().enumerate() {
+                let labels = vec![1u8; text.len() - 1];
+                let ids: &[usize] = if text[0] == c && text[1] == c { &[0, 1, 2, 3, 4, 5, 6, 7] } else { &[6, 7] };
+                let _ = k;
+                for &id in ids {
+                    chk.eval(1);
+                    if expected_boundaries(id, text, &labels) != labels {
+                        chk.nontrivial(1);
+                    }
+                    if let Some((kd, what)) = check_boundary_filter(id, text, &labels, 0, &[]) {
+                        chk.violation(format!("{kd} filter={id} text={:?} labels={} n_tags=0", gen::s(text), lab(&labels)), what, json!({"kind": "boundary", "filter": id, "text": gen::s(text), "labels": labels, "n_tags": 0, "pattern": 0}));
+                    }
+                }
+            }
+        });
+    }
     // pattern tagger: every rule table over surfaces {a, ab} with tag vectors of length 0..3
     let mut vecs: Vec<Option<Vec<Option<String>>>> = vec![None];
     for len in 0..=3 {
@@ -339,7 +364,7 @@ pub fn run(tier: Tier) -> ! {
     chk.sample(json!({"filter": "pattern-tagger", "rules": {"a": ["R0", null, "R2"]}, "text": "ab", "labels": "W", "n_tags": 2}));
     chk.assume("grapheme cluster boundaries: unicode-segmentation run over the whole string is the trusted definition");
     chk.finish(
-        "six wsconst filters, the line-break filter and the grapheme filter x all texts up to the bound over a 13-letter alphabet (digits, letters, kana, kanji, CR, LF, ZWJ, pictograph, regional indicator, combining mark, skin-tone modifier) x every {N,W,U} vector (n<=4) or the constant vectors and all single deviations (n=5) x three tag fillings, plus long texts (30 / 64 characters, periodic labels) and the gap family (two target pairs 0..=70 fillers apart (140 in thorough) at offsets 0..=3, for each of 8 target characters); the pattern tagger with all 256 rule tables x texts x label vectors x tag counts 0..3 x three tag fillings; non-trivial = the rule changes something; distinct by construction",
+        "six wsconst filters, the line-break filter and the grapheme filter x all texts up to the bound over a 13-letter alphabet (digits, letters, kana, kanji, CR, LF, ZWJ, pictograph, regional indicator, combining mark, skin-tone modifier) x every {N,W,U} vector (n<=4) or the constant vectors and all single deviations (n=5) x three tag fillings, plus long texts (30 / 64 characters, periodic labels) and the gap family (two target pairs 0..=70 fillers apart (140 in thorough) at offsets 0..=3, for each of 8 target characters) and every Unicode scalar value in two / four two-to-three-character contexts (all grapheme-break classes x character types); the pattern tagger with all 256 rule tables x texts x label vectors x tag counts 0..3 x three tag fillings; non-trivial = the rule changes something; distinct by construction",
         true,
         &replay,
     )
